@@ -145,8 +145,18 @@ def run(repo):
         last_assign = [t for t in txt if t.startswith('self.last =')]
         known = ('self.last = self.vars[-1].first + self.vars[-1].size', 'self.last = self.vars[-1].last')
         if last_assign and not any(t in known for t in last_assign):
-            raise AnalysisError('%s: the rollback computes self.last as `%s`, a form the rule does not '
-                                'interpret' % (fq, last_assign[0]))
+            rhs = last_assign[0].split('=', 1)[1]
+            if '.first' in rhs or '.last' in rhs:
+                raise AnalysisError('%s: the rollback computes self.last as `%s`, a form the rule does '
+                                    'not interpret' % (fq, last_assign[0]))
+            # no reference to the position of a block at all: cannot be the end of the last block
+            res.inst({'rollback': fq, 'statements': txt, 'ok': False}, False)
+            res.fail(Finding(RULE, fq, 'aux rollback position',
+                             '%s rolls the column counter back with `%s`, which does not use the position '
+                             '(.first/.last) of the last non-auxiliary block: the non-auxiliary blocks are '
+                             'not contiguous after a re-formulation (R15a), so new auxiliary columns would '
+                             'be allocated on top of live ones' % (fq, last_assign[0]), repo.where(f3, blk), P))
+            continue
         auxs_reset = any(t in ('self.auxs = []', 'self.auxs = list()', 'self.auxs.clear()') for t in txt)
         ok = auxs_reset and bool(last_assign)
         res.inst({'rollback': fq, 'statements': txt, 'ok': ok}, ok)
